@@ -175,7 +175,7 @@ def double_cases(c, refs):
         classes = {steps[0], lock_n} | {n + 1 for n in steps}
         full = (prefix, hmode) == ("fresh", "ok")
         if not c.quick:
-            points = set(range(1, lock_n + 1)) if full else classes | set(range(c.rng.randrange(2), lock_n + 1, 2))
+            points = set(range(1, lock_n + 1)) if full else classes | set(range(1 + c.rng.randrange(2), lock_n + 1, 2))
             plan = [(n, sig) for n in sorted(points) for sig in SIGNALS]
             plan += [(("ext", d), sig) for d in (c.rng.randrange(0, 30), c.rng.randrange(30, 250)) for sig in SIGNALS]
         elif full:
@@ -206,8 +206,15 @@ def run(c: Check):
               "(return, exception, sys.exit(3), sys.exit(0), other BaseException) x signal (KILL, TERM, INT) x "
               "n-th executed line of run.py or of the task body (lines before the body only for the outcome `return`, the other outcomes from the first body line on; "
               "quick: every 4th line plus all body points; thorough: every line; on a directory with a stale failure "
-              "marker 2 resp. 3 of the outcomes), followed by 1-3 relaunches with random outcomes and deaths; non-trivial = the signal was "
-              "delivered, distinct by (initial directory, outcome, signal, line index)")
+              "marker 2 resp. 3 of the outcomes), followed by 1-3 relaunches with random outcomes and deaths; "
+              "DOUBLE LAUNCHES: a second job process for the same directory is started while the first is held in its body "
+              "(latch), its scheduler rewrites the pid file, and it receives KILL/TERM/INT at its n-th executed line, n = 1 .. "
+              "the line calling lock.acquire (quick: the 5 classes before/after each private step and at the call, plus every "
+              "3rd line; thorough: every line), or from outside while blocked in lock.acquire after a generated delay; the "
+              "directory is inspected, then the first process is let go and in 25-40 % of the cases gets its own signal "
+              "(both die); SECOND DEATHS: TERM/INT at a line, then SIGKILL when j = 0..4 observable effects of its handling "
+              "are done; non-trivial = the signal was delivered, distinct by (kind, initial directory, outcome, signal, "
+              "line index / point, second signal)")
     if "model/Runner.v" in (COQ / "_CoqProject").read_text():
         c.build()
     else:  # development only: the files are compiled by hand until they are listed in _CoqProject
@@ -315,7 +322,7 @@ def run(c: Check):
                         "did not die" if w["never_died"] or not w["fired"] else "died", "alive" if w["holder_alive"] else "gone",
                         json.dumps(x["launches"])))
                 where = "blocked-in-acquire" if w.get("ext") is not None else (
-                    "at-acquire-call" if w["pre"] == ["RegAtexit", "SetTerm", "SetInt"] and w["ctx"] == "try"
+                    "in-try-up-to-the-acquire-call" if w["pre"] == ["RegAtexit", "SetTerm", "SetInt"] and w["ctx"] == "try"
                     else "after-%d-private-steps" % len(w["pre"]))
                 c.count(f"lock-waiter:{w['sig']}:{where}")
                 c.count("double-launch:" + ("both-die" if l["fired"] else "holder-ends-by-itself:" + l["mode"]))
@@ -359,7 +366,14 @@ def run(c: Check):
         "partial: 'the run lock dies with the process' is the operating system's behaviour (fcntl locks); the model "
         "states it in `die`, the sweep probes it after every death, it is not proved",
         "deaths are injected at line boundaries of run.py and of the task body (a signal inside a C call or between "
-        "the creation and the writing of the failure marker is not injected); one signal per launch",
+        "the creation and the writing of the failure marker is not injected); per process one signal, optionally followed "
+        "by one SIGKILL at an observable-effect boundary of its handling (a second TERM/INT during the handler is neither "
+        "modelled nor injected)",
+        "two processes for one job: the second process's life lies entirely inside the first one's body (held by a latch); "
+        "it never survives the first (that is the sequential history); its handler steps are not interleaved with steps "
+        "of the first",
+        "pid reuse is outside the model (the pid file is present/absent, not a process identity): nothing is claimed about "
+        "a left-over pid file naming a recycled pid",
         "the pid file is written by the launching side before the runner's first effect (the driver writes it right "
         "after spawning, as CommandLineJob.aio_run does; the wrapper waits for it)",
     ]
